@@ -926,9 +926,22 @@ def own_regen(ck, files, order, after_first=None):
     os.makedirs(wgen)
     failed, log = [], ""
     own_regen.removed = {}
+    own_regen.stmts = {}
+    own_regen.culprits = {}
     for n in order:
         text = files[n]
         removed = []
+        # a file whose regenerated text equals the committed snapshot (e.g. the database when only the assembler's tables changed) is not
+        # recompiled: the snapshot's .vo, brought up to date by make, is the same module VerifGen.<name>
+        gv = os.path.join(gen, n)
+        if n == order[0] and os.path.exists(gv) and open(gv).read() == text and not ck.coq_make(["gen/" + n + "o"]) \
+                and os.path.exists(gv + "o"):
+            shutil.copy(gv, os.path.join(wgen, n))
+            shutil.copy(gv + "o", os.path.join(wgen, n + "o"))
+            own_regen.removed[n] = ([], True)
+            if after_first is not None:
+                after_first(wgen)
+            continue
         for attempt in range(7):
             open(os.path.join(wgen, n), "w").write(text)
             rc, out, err = vlib.sh(["coqc", "-Q", os.path.join(vlib.COQ, "theories"), "Verif", "-Q", wgen, "VerifGen", "-w", "-all", os.path.join(wgen, n)],
@@ -949,13 +962,56 @@ def own_regen(ck, files, order, after_first=None):
             while e < len(lines) and "Qed." not in lines[e]:
                 e += 1
             removed.append(lines[k].split()[1])
+            own_regen.stmts[lines[k].split()[1]] = " ".join(lines[k:e + 1])
             text = "\n".join(lines[:k] + ["(* lemma %s removed: it failed *)" % lines[k].split()[1]] * (e - k + 1) + lines[e + 1:])
         if rc != 0 or removed:
             failed.append(n)
         own_regen.removed[n] = (removed, rc == 0)
+        if removed and rc == 0:
+            # sharper failing input: WHICH entries of the collection a failed lemma quantifies over make it false -- evaluated against the
+            # module just compiled (it has every definition, only the failed lemmas are gone)
+            hdr = "\n".join(l for l in files[n].split("\n")[:12] if l.startswith("From ") or l.startswith("Import ") or l.startswith("Local Open"))
+            for nm in removed:
+                st = own_regen.stmts.get(nm, "")
+                found = []
+                for mm in re.finditer(r"forallb \(fun (\w+) => (.*?)\) (inst_table|db_rows|db_wait_rows|hl_classes|\(zrange 256\)|\(?zrange256\)?)(?= &&| = true)", st):
+                    var, body, coll = mm.group(1), mm.group(2), mm.group(3)
+                    proj = {"inst_table": "ie_name (fst %s)" % var, "hl_classes": "fst %s" % var, "db_rows": "r_id %s" % var,
+                            "db_wait_rows": "r_id %s" % var}.get(coll, var)
+                    scratch = os.path.join(wgen, "Culprit_%s.v" % nm)
+                    open(scratch, "w").write("%s\nFrom VerifGen Require Import %s.\nEval vm_compute in map (fun %s => %s) (filter (fun %s => negb (%s)) %s).\n"
+                                             % (hdr, n[:-2], var, proj, var, body, coll))
+                    rc2, out2, err2 = vlib.sh(["coqc", "-Q", os.path.join(vlib.COQ, "theories"), "Verif", "-Q", wgen, "VerifGen", "-w", "-all", scratch],
+                                              cwd=wgen, timeout=600)
+                    m2 = re.search(r"=\s*\[(.*?)\]\s*:", out2, re.S)
+                    if rc2 == 0 and m2:
+                        ids = [int(x) for x in re.findall(r"-?\d+", m2.group(1))]
+                        if ids:
+                            found.append((coll, ids[:40]))
+                if found:
+                    own_regen.culprits[nm] = found
         if n == order[0] and rc == 0 and after_first is not None:
             after_first(wgen)       # what needs only the first file (extraction of the model) starts beside the second one
     return wgen, failed, log
+
+
+def culprit_text(culprits, names, rows):
+    """The entries that make a failed reflection lemma false, in words: instruction mnemonics, database rows, opcode buckets."""
+    byid = {r["id"]: r for r in rows}
+    out = []
+    for lemma, found in sorted(culprits.items()):
+        parts = []
+        for coll, ids in found:
+            if coll == "inst_table":
+                parts.append("instructions " + ", ".join(names[i] if 0 <= i < len(names) else str(i) for i in ids))
+            elif coll in ("db_rows", "db_wait_rows"):
+                parts.append("database rows " + ", ".join("%s [%s]" % (byid[i]["name"], byid[i]["src"]["opcodeString"]) if i in byid else str(i) for i in ids))
+            elif coll == "hl_classes":
+                parts.append("encoding classes " + ", ".join(str(i) for i in ids))
+            else:
+                parts.append("opcode buckets " + ", ".join("%02X" % i for i in ids))
+        out.append("%s fails for: %s" % (lemma, "; ".join(parts)))
+    return ("CULPRITS: " + " | ".join(out)) if out else ""
 
 
 # ------------------------------------------------------------------ main
@@ -968,7 +1024,7 @@ def run(ck):
     tabs, insts = c01_tables.dump(dumper)
     ttext, tinfo = c01_tables.coq_text(tabs, insts, names, rows)
     th_failed = ck.coq_make(["theories/X86/X86Denote.vo", "theories/X86/X86DbCheck.vo", "theories/X86/X86Proofs.vo", "theories/X86/X86TablesSpec.vo",
-                             "theories/X86/X86UniqueProofs.vo", "theories/X86/X86JudgeProofs.vo", "theories/X86/X86LengthProofs.vo", "theories/X86/X86Choice.vo"])
+                             "theories/X86/X86UniqueProofs.vo", "theories/X86/X86JudgeProofs.vo", "theories/X86/X86LengthProofs.vo", "theories/X86/X86Choice.vo", "theories/X86/X86EncProofs.vo", "theories/X86/X86PrefixOrder.vo", "theories/X86/X86Reencode.vo", "theories/X86/X86FrameProofs.vo", "theories/X86/X86Shortest.vo", "theories/X86/X86Leg32.vo"])
     # the instruction-option bits the stream passes to the emitter are those of the working tree's InstOptions enum
     opt_names = ["modmr", "modrm", "vex3", "vex", "evex", "lock", "rep", "repne", "xacquire", "xrelease", "er", "sae", "z", "rex"]
     if tabs.get("inst_options") != [OPT[k] for k in opt_names]:
@@ -1006,7 +1062,7 @@ def run(ck):
         if failed:
             ck.violation("C01/gen-reflection/" + "+".join(failed), "the regenerated %s no longer pass their reflection lemmas (ISA database well-formedness / AsmJit table "
                          "specifications / table-vs-database agreement); failing lemmas: %s; %s"
-                         % (failed, {n: v[0] for n, v in own_regen.removed.items() if v[0]}, log[-800:]),
+                         % (failed, {n: v[0] for n, v in own_regen.removed.items() if v[0]}, culprit_text(own_regen.culprits, names, rows) + " " + log[-600:]),
                          {"broken": "reflection lemmas of coq/gen/%s" % failed, "log": log[-2000:]}, no_input=True)
     if regen is not None and "IsaX86Db.v" in failed and not own_regen.removed.get("IsaX86Db.v", ([], False))[1]:
         # the search phase still needs an executable model of the NEW database: recompile the data without the failing lemmas
@@ -1139,6 +1195,9 @@ def run(ck):
     nontrivial = set()
     samples = []
     mod_checked = mod_mismatch = 0
+    reenc_checked = reenc_failed = 0
+    choice_checked = choice_mismatch = 0
+    reenc_fail_calls = []
     alias_seen = {}
     VERD = {"1": "no-decoding", "2": "wrong-instruction-or-operands", "3": "wrong-length", "9": "model-crash"}
     for i, ((c, hb), v) in enumerate(zip(acc, verd)):
@@ -1160,6 +1219,27 @@ def run(ck):
                     ck.violation(("C01/evex-16bit-addressing-disp8-not-scaled/%s" if a16evex else "C01/%s/mod-choice-not-as-modelled") % c["name"], "the ModRM.mod field of the accepted call `%s` (bytes %s) is not the "
                                  "one X86Choice.aj_mod (the model of EmitModSib's choice: shortest admissible displacement form) gives: %s"
                                  % (harness_line(c), hb, vmod), {"call": c, "impl": hb, "broken": "X86Choice.aj_mod as a description of the emitter"})
+        # byte-exact re-encoding: the accepted bytes must be an OUTPUT of the proven structural encoder (X86Reencode.reencodes) for the
+        # instruction they decode to, with the prefix order and the encoder choices they exhibit
+        vre = [x.strip() for x in vparts[4].strip().split(",") if x.strip()] if len(vparts) > 4 else []
+        if vcode == "0" and vre:
+            reenc_checked += 1
+            if not any(x.endswith("+") for x in vre):
+                reenc_failed += 1
+                reenc_fail_calls.append((c, hb, vre))
+        # the other two encoder choices against the model (X86Shortest.aj_choices, proved admissible and SHORTEST): a three-byte VEX prefix
+        # only when requested ({vex3}), a SIB byte only where the addressing form needs one (or the row is AMX tile memory)
+        vx = [x.strip() for x in vparts[5].strip().split(",") if x.strip()] if len(vparts) > 5 else []
+        if vcode == "0" and vx:
+            choice_checked += 1
+            rowx = byid.get(c["row"]) or {}
+            badx = [x for x in vx if ("v" in x and not (c["opt"] & OPT["vex3"])) or ("s" in x and not rowx.get("src", {}).get("tsib"))]
+            if badx and len(badx) == len(vx):
+                choice_mismatch += 1
+                if choice_mismatch <= 5:
+                    ck.violation("C01/%s/encoder-choice-not-as-modelled" % c["name"], "the accepted call `%s` (bytes %s) uses a three-byte VEX prefix or a SIB byte "
+                                 "where X86Shortest.aj_choices (the model of the emitter's choices: shortest admissible encoding) does not: %s"
+                                 % (harness_line(c), hb, vx), {"call": c, "impl": hb, "broken": "X86Shortest.aj_choices as a description of the emitter"})
         row = byid.get(c["row"])
         st, ltext, lbytes, linsts = ll.get(i, ("desync", "", 0, 0))
         lprobs = None
@@ -1288,6 +1368,20 @@ def run(ck):
                 key = "C01/sae-requested-on-er-instruction/%s" % c["name"]
             ck.violation(key, what,
                          {"call": c, "bytes": hb, "model": v, "llvm": ltext, "llvm_status": st, "llvm_problems": lprobs})
+    ck.log("re-encoding: %d calls are encoder outputs, %d are not" % (reenc_checked - reenc_failed, reenc_failed))
+    seen_re = set()
+    # bound / lds / les (opcodes 62 / C5 / C4 with a memory ModRM byte, 32-bit mode) are decodable but outside the ENCODER model: X86Model.wf
+    # excludes the EVEX / VEX lead bytes as legacy opcodes in both modes
+    reenc_outside = [t for t in reenc_fail_calls if t[0]["name"] in ("bound", "lds", "les") and t[0]["mode"] == 32]
+    reenc_fail_calls = [t for t in reenc_fail_calls if t not in reenc_outside]
+    for c, hb, vre in reenc_fail_calls:
+        kre = "C01/%s/%d/bytes-are-not-an-encoder-output" % (c["name"], c["mode"])
+        if kre in seen_re or len(seen_re) >= 40:
+            continue
+        seen_re.add(kre)
+        ck.violation(kre, "the accepted call `%s` decodes to the call, but its bytes %s are not an output of the proven structural encoder for that "
+                     "instruction (X86Reencode.reencodes with the prefix order and choices the bytes exhibit: duplicated / stray prefix or a "
+                     "non-canonical field): %s" % (harness_line(c), hb, vre), {"call": c, "impl": hb})
     for (a, b), hb in sorted(alias_seen.items()):
         ck.violation("C01/%s/llvm-mnemonic-%s" % (a, b), "llvm-mc prints mnemonic `%s` for an accepted `%s` (bytes %s); not in corpus/C01_llvm_alias.txt"
                      % (b, a, hb), {"bytes": hb, "asmjit": a, "llvm": b})
@@ -1327,7 +1421,7 @@ def run(ck):
          "unsupported": {k: {"rows": len(v), "mnemonics": sorted(set(v))[:40]} for k, v in sorted(uns.items())},
          "asmjit_tables": tinfo,
          "db_rows_repaired": sorted(set("%s [%s]" % (r["name"], r["repaired"]) for r in rows if r.get("repaired")))[:60], "input_distribution": strata, "oracle": stats, "known_base_address_calls": len([1 for c, _ in acc if c.get("base")]),
-         "known_base_address_calls_encoded_rip_relative": rip_readings, "x87_wait_form_calls_verified": wait_forms_verified, "calls_with_unchanged_bytes_in_front_of_the_instruction": frame_checked, "calls_whose_mod_field_is_the_modelled_choice": mod_checked - mod_mismatch, "calls_whose_mod_field_differs_from_the_modelled_choice": mod_mismatch, "mnemonics_with_fixed_base_memory_signature": fixed_sig_names, "mnemonics_llvm_mc_14_never_decodes": sorted(llvm_never)[:300], "database_regenerated": regen is not None},
+         "known_base_address_calls_encoded_rip_relative": rip_readings, "x87_wait_form_calls_verified": wait_forms_verified, "calls_with_unchanged_bytes_in_front_of_the_instruction": frame_checked, "calls_whose_bytes_are_an_output_of_the_proven_encoder": reenc_checked - reenc_failed, "calls_whose_bytes_are_not_an_encoder_output": len(reenc_fail_calls), "calls_outside_the_encoder_model_bound_lds_les_32bit": len(reenc_outside), "calls_whose_vex_and_sib_choices_are_the_modelled_ones": choice_checked - choice_mismatch, "calls_whose_vex_or_sib_choice_differs": choice_mismatch, "calls_whose_mod_field_is_the_modelled_choice": mod_checked - mod_mismatch, "calls_whose_mod_field_differs_from_the_modelled_choice": mod_mismatch, "mnemonics_with_fixed_base_memory_signature": fixed_sig_names, "mnemonics_llvm_mc_14_never_decodes": sorted(llvm_never)[:300], "database_regenerated": regen is not None},
         assumptions=["the C++ harness calls the real x86::Assembler::_emit of /repo's working tree with DiagnosticOptions::kValidateAssembler",
                      "theorems are about the Gallina structural encoder/decoder; that AsmJit's bytes are decodable to the call is established on the generated calls only",
                      "the structural decoding rules (X86Model.v) and the disp8*N table (X86Denote.v) were written by hand from the Intel SDM; llvm-mc 14 cross-checks them on every accepted encoding it knows",
